@@ -264,6 +264,25 @@ def run(ctx):
             ctx.violation('legacy TCPStream over segments of one stream (duplicates, partial retransmissions): %s' % crash[0][:200],
                           '=== replay (harness h_dt)\n' + '\n'.join(lines) + '\n--- C++ output\n' + '\n'.join(l[:300] for l in th_.get(sid, [])) + '\n')
             break
+    # ---- ... and by the IPv4 reassembler (fragments, duplicates included): every payload layer it takes over is freed or put back,
+    #      the caller's packet keeps its layers -- LSan in harness h_ipr
+    C.build_harness('h_ipr')
+    rs_ = []
+    for i in range(30 if quick else 600):
+        n = rng.choice([24, 40, 64]); pay = bytes(rng.randrange(256) for _ in range(n))
+        cuts = sorted(set([0, n] + [8 * rng.randrange(1, n // 8) for _ in range(rng.randrange(1, 4))]))
+        frs = [(a_, b_) for a_, b_ in zip(cuts, cuts[1:])]
+        order = frs + [rng.choice(frs) for _ in range(rng.randrange(1, 4))]       # duplicates
+        rng.shuffle(order)
+        rs_.append(('i%d' % i, ['pkt 77 167772161 167772162 253 64 0 0 %d %d x%s' % (0 if b_ == n else 1, a_ // 8, pay[a_:b_].hex()) for a_, b_ in order]))
+    rh_ = C.run_harness('h_ipr', rs_)
+    ctx.cov['evaluations'] += len(rs_)
+    for sid, lines in rs_:
+        crash = [l for l in rh_.get(sid, []) if l.startswith('!!')]
+        if crash:
+            ctx.violation('IPv4Reassembler over fragments with duplicates: %s' % crash[0][:200],
+                          '=== replay (harness h_ipr)\n' + '\n'.join(lines) + '\n--- C++ output\n' + '\n'.join(l[:300] for l in rh_.get(sid, [])) + '\n')
+            break
     ctx.cov['rule'] = ('random programs over 18 operations on a pool of 8 objects (9 layer classes) and 4 Packet wrappers, plus programs biased to copy/move '
                        'assignment between chains of different lengths with the same head class; copies taken from inner layers (subclone/subcopy) and clones of a PDUCacher with stacked layers are judged by a Python reference only (not operations of the Coq model); non-trivial = distinct program using >=4 operation kinds that builds a multi-layer chain')
     ctx.cov['samples'] = [batch[0][1][:10], batch[n1][1][:10]]
